@@ -375,14 +375,12 @@ theorem C10_tables_unconditional_minimal :
       !(e.1 == 0) || e.2.2.1.all (fun a => a == eptid))) = true := by
   decide +kernel
 
-/-- The pinned Code-of-Conduct clause: when every governing item keyed by a `coco` category is
-    flagged ONLY_REQUIRED in the table (what `C10_tables_coco_only_required` establishes for the
-    bundled tables), the model's release meets `cocoPinned`. -/
-theorem C10_coco_pinned (coco : α → Bool) (c : Ctx α ρ) (identity : Ava α) (required optional : List (ReqAttr α))
-    (hT : ∀ entries, catsInEffect c = some entries →
-      ∀ e ∈ entries, keyMentions coco e.key = true → e.onlyRequired = true) :
-    cocoPinned coco c required (policyFilter c identity required optional) = true := by
-  unfold cocoPinned
+/-- The pinned clause: when every governing item is a fixed point of `pinEntry` (what
+    `C10_tables_pinned` establishes for the bundled tables), the model's release meets `pinnedOk`. -/
+theorem C10_pinned (coco keep : α → Bool) (c : Ctx α ρ) (identity : Ava α) (required optional : List (ReqAttr α))
+    (hT : ∀ entries, catsInEffect c = some entries → ∀ e ∈ entries, pinEntry coco keep e = e) :
+    pinnedOk coco keep c required (policyFilter c identity required optional) = true := by
+  unfold pinnedOk
   cases hres : policyFilter c identity required optional with
   | error e => rfl
   | ok r =>
@@ -390,18 +388,8 @@ theorem C10_coco_pinned (coco : α → Bool) (c : Ctx α ρ) (identity : Ava α)
     | none => rfl
     | some entries =>
       simp only
-      have hmap : entries.map (pinEntry coco) = entries := by
-        have : ∀ e ∈ entries, pinEntry coco e = e := by
-          intro e he
-          unfold pinEntry
-          cases hk : keyMentions coco e.key with
-          | false => simp
-          | true =>
-            have ho := hT entries hc e he hk
-            cases e
-            simp only at ho
-            simp [ho]
-        calc entries.map (pinEntry coco) = entries.map id := List.map_congr_left this
+      have hmap : entries.map (pinEntry coco keep) = entries := by
+        calc entries.map (pinEntry coco keep) = entries.map id := List.map_congr_left (hT entries hc)
           _ = entries := List.map_id _
       rw [hmap]
       apply List.all_eq_true.mpr
@@ -410,6 +398,19 @@ theorem C10_coco_pinned (coco : α → Bool) (c : Ctx α ρ) (identity : Ava α)
       rw [hc] at hb
       simp only at hb
       simpa using hb
+
+/-- The regenerated tables as `CatEntry Nat`. -/
+def bundledEntries : List (CatEntry Nat) :=
+  Gen.EntityCategories.codes.flatMap (fun m => m.2.map (fun e =>
+    { key := (match e.1 with | 0 => CatKey.always | 1 => .single (e.2.1.headD 0) | _ => .all e.2.1),
+      attrs := e.2.2.1, onlyRequired := e.2.2.2.1, noAggregation := e.2.2.2.2 }))
+
+/-- Every bundled `RELEASE` item is a fixed point of `pinEntry`: Code-of-Conduct items are
+    ONLY_REQUIRED and the always-released items list nothing but eduPersonTargetedID. -/
+theorem C10_tables_pinned :
+    bundledEntries.all (fun e =>
+      pinEntry (fun k => k == cocoV1 || k == cocoV2) (fun a => a == eptid) e == e) = true := by
+  decide +kernel
 
 /-! ### non-vacuity: concrete instances -/
 
